@@ -12,6 +12,7 @@ import (
 	"errors"
 	"fmt"
 	"sync"
+	"time"
 
 	kms2 "github.com/aws/aws-sdk-go-v2/service/kms"
 	"github.com/aws/aws-sdk-go/aws"
@@ -49,6 +50,9 @@ type Region struct {
 	// WrongPlaintext makes Decrypt succeed with a different data key (a stale or damaged regional KEK):
 	// the KMS call works but the envelope cannot be opened with what it returned.
 	WrongPlaintext bool
+	// SlowFailGenerate > 0 makes GenerateDataKey hang for that long (or until the request's context is done) and
+	// then fail: an endpoint that is slow to time out.
+	SlowFailGenerate time.Duration
 	// Handed holds every Plaintext slice handed out in a response (same backing arrays).
 	Handed [][]byte
 }
@@ -79,7 +83,7 @@ func (c *Cloud) Reset() {
 	defer c.mu.Unlock()
 	c.Log, c.Requests, c.ReqPlain = nil, nil, nil
 	for _, r := range c.Regions {
-		r.FailGenerate, r.FailEncrypt, r.FailDecrypt, r.WrongPlaintext = false, false, false, false
+		r.FailGenerate, r.FailEncrypt, r.FailDecrypt, r.WrongPlaintext, r.SlowFailGenerate = false, false, false, false, 0
 		r.Handed = nil
 	}
 }
@@ -115,7 +119,35 @@ func (r *Region) open(blob []byte) ([]byte, error) {
 	return g.Open(nil, rest[:12], rest[12:], []byte(r.ARN))
 }
 
-func (r *Region) generate(keyID string) (pt, blob []byte, err error) {
+// ctxErr reports a request whose context is already done the way the AWS SDKs do (they do not send it).
+func ctxErr(ctx context.Context) error {
+	if ctx != nil && ctx.Err() != nil {
+		return fmt.Errorf("RequestCanceled: request context canceled: %w", ctx.Err())
+	}
+	return nil
+}
+
+func (r *Region) generate(ctx context.Context, keyID string) (pt, blob []byte, err error) {
+	if err := ctxErr(ctx); err != nil {
+		r.cloud.mu.Lock()
+		r.cloud.log(r.Name, "generate", false)
+		r.cloud.mu.Unlock()
+		return nil, nil, err
+	}
+	if d := r.SlowFailGenerate; d > 0 {
+		var done <-chan struct{}
+		if ctx != nil {
+			done = ctx.Done()
+		}
+		select {
+		case <-time.After(d):
+		case <-done:
+		}
+		r.cloud.mu.Lock()
+		r.cloud.log(r.Name, "generate", false)
+		r.cloud.mu.Unlock()
+		return nil, nil, fmt.Errorf("RequestTimeout: generate in %s timed out", r.Name)
+	}
 	r.cloud.mu.Lock()
 	defer r.cloud.mu.Unlock()
 	if r.FailGenerate || keyID != r.ARN {
@@ -130,7 +162,13 @@ func (r *Region) generate(keyID string) (pt, blob []byte, err error) {
 	return pt, blob, nil
 }
 
-func (r *Region) encrypt(keyID string, pt []byte) ([]byte, error) {
+func (r *Region) encrypt(ctx context.Context, keyID string, pt []byte) ([]byte, error) {
+	if err := ctxErr(ctx); err != nil {
+		r.cloud.mu.Lock()
+		r.cloud.log(r.Name, "encrypt", false)
+		r.cloud.mu.Unlock()
+		return nil, err
+	}
 	r.cloud.mu.Lock()
 	defer r.cloud.mu.Unlock()
 	r.cloud.Requests = append(r.cloud.Requests, append([]byte(nil), pt...))
@@ -143,7 +181,13 @@ func (r *Region) encrypt(keyID string, pt []byte) ([]byte, error) {
 	return r.seal(pt), nil
 }
 
-func (r *Region) decrypt(blob []byte) ([]byte, error) {
+func (r *Region) decrypt(ctx context.Context, blob []byte) ([]byte, error) {
+	if err := ctxErr(ctx); err != nil {
+		r.cloud.mu.Lock()
+		r.cloud.log(r.Name, "decrypt", false)
+		r.cloud.mu.Unlock()
+		return nil, err
+	}
 	r.cloud.mu.Lock()
 	defer r.cloud.mu.Unlock()
 	r.cloud.Requests = append(r.cloud.Requests, append([]byte(nil), blob...))
@@ -168,24 +212,24 @@ func (r *Region) decrypt(blob []byte) ([]byte, error) {
 // V1 is the aws-sdk-go (v1) face of a region.
 type V1 struct{ R *Region }
 
-func (c V1) EncryptWithContext(_ aws.Context, in *kms1.EncryptInput, _ ...request.Option) (*kms1.EncryptOutput, error) {
-	b, err := c.R.encrypt(aws.StringValue(in.KeyId), in.Plaintext)
+func (c V1) EncryptWithContext(ctx aws.Context, in *kms1.EncryptInput, _ ...request.Option) (*kms1.EncryptOutput, error) {
+	b, err := c.R.encrypt(ctx, aws.StringValue(in.KeyId), in.Plaintext)
 	if err != nil {
 		return nil, err
 	}
 	return &kms1.EncryptOutput{CiphertextBlob: b, KeyId: aws.String(c.R.ARN)}, nil
 }
 
-func (c V1) GenerateDataKeyWithContext(_ aws.Context, in *kms1.GenerateDataKeyInput, _ ...request.Option) (*kms1.GenerateDataKeyOutput, error) {
-	pt, b, err := c.R.generate(aws.StringValue(in.KeyId))
+func (c V1) GenerateDataKeyWithContext(ctx aws.Context, in *kms1.GenerateDataKeyInput, _ ...request.Option) (*kms1.GenerateDataKeyOutput, error) {
+	pt, b, err := c.R.generate(ctx, aws.StringValue(in.KeyId))
 	if err != nil {
 		return nil, err
 	}
 	return &kms1.GenerateDataKeyOutput{Plaintext: pt, CiphertextBlob: b, KeyId: aws.String(c.R.ARN)}, nil
 }
 
-func (c V1) DecryptWithContext(_ aws.Context, in *kms1.DecryptInput, _ ...request.Option) (*kms1.DecryptOutput, error) {
-	pt, err := c.R.decrypt(in.CiphertextBlob)
+func (c V1) DecryptWithContext(ctx aws.Context, in *kms1.DecryptInput, _ ...request.Option) (*kms1.DecryptOutput, error) {
+	pt, err := c.R.decrypt(ctx, in.CiphertextBlob)
 	if err != nil {
 		return nil, err
 	}
@@ -195,24 +239,24 @@ func (c V1) DecryptWithContext(_ aws.Context, in *kms1.DecryptInput, _ ...reques
 // V2 is the aws-sdk-go-v2 face of a region.
 type V2 struct{ R *Region }
 
-func (c V2) Encrypt(_ context.Context, in *kms2.EncryptInput, _ ...func(*kms2.Options)) (*kms2.EncryptOutput, error) {
-	b, err := c.R.encrypt(aws.StringValue(in.KeyId), in.Plaintext)
+func (c V2) Encrypt(ctx context.Context, in *kms2.EncryptInput, _ ...func(*kms2.Options)) (*kms2.EncryptOutput, error) {
+	b, err := c.R.encrypt(ctx, aws.StringValue(in.KeyId), in.Plaintext)
 	if err != nil {
 		return nil, err
 	}
 	return &kms2.EncryptOutput{CiphertextBlob: b, KeyId: aws.String(c.R.ARN)}, nil
 }
 
-func (c V2) GenerateDataKey(_ context.Context, in *kms2.GenerateDataKeyInput, _ ...func(*kms2.Options)) (*kms2.GenerateDataKeyOutput, error) {
-	pt, b, err := c.R.generate(aws.StringValue(in.KeyId))
+func (c V2) GenerateDataKey(ctx context.Context, in *kms2.GenerateDataKeyInput, _ ...func(*kms2.Options)) (*kms2.GenerateDataKeyOutput, error) {
+	pt, b, err := c.R.generate(ctx, aws.StringValue(in.KeyId))
 	if err != nil {
 		return nil, err
 	}
 	return &kms2.GenerateDataKeyOutput{Plaintext: pt, CiphertextBlob: b, KeyId: aws.String(c.R.ARN)}, nil
 }
 
-func (c V2) Decrypt(_ context.Context, in *kms2.DecryptInput, _ ...func(*kms2.Options)) (*kms2.DecryptOutput, error) {
-	pt, err := c.R.decrypt(in.CiphertextBlob)
+func (c V2) Decrypt(ctx context.Context, in *kms2.DecryptInput, _ ...func(*kms2.Options)) (*kms2.DecryptOutput, error) {
+	pt, err := c.R.decrypt(ctx, in.CiphertextBlob)
 	if err != nil {
 		return nil, err
 	}
